@@ -14,6 +14,7 @@ def run(prog, rep, tier):
                        "above are its structural preconditions).")
     apply(rep, "Q1", "no hidden mutable process-level state", r_pure.q1(prog), 4)
     apply(rep, "Q3", "caches are insert-only", r_pure.q3(prog), 1)
+    apply(rep, "Q3b", "cache entries are inserted complete (nothing may throw after the insertion)", r_pure.q3b(prog), 2)
     apply(rep, "Q4", "shared sequence storage mutated only through an owned operand", r_pure.q4(prog), 3)
     apply(rep, "Q4c", "copies never alias storage that `add` mutates in place", r_pure.q4c(prog), 3)
     apply(rep, "W1", "const protocol (type-level)", r_pure.w1(prog), 8)
